@@ -8,6 +8,8 @@
 -/
 import MTVerif.Model.Sig
 import MTVerif.Lemmas.ModuleBuild
+import MTVerif.Lemmas.FuncDef
+import MTVerif.Props.C13
 namespace MT.C12
 open MT.Sig
 
@@ -265,6 +267,61 @@ theorem later_entry_wins (es : List Entry) (e : Entry) :
     | nil => intro t i; simp [buildFrom, lookup_insert_self]
     | cons x xs ih => intro t i; simp only [List.cons_append, buildFrom, ih, List.length_cons, Option.some.injEq]; omega
   simpa [build] using this es Tree.empty 0
+
+
+/-! ### the head of a function stub and its parameters, for a whole function (`FunctionKind.from_callable`,
+    `FunctionStub.render`, `get_updated_definition`; Model/FuncDef) -/
+
+section
+open MT MT.Anno MT.FuncDef
+
+/-- the decorator matches the kind: what `getattr_static` finds under the qualified name decides it, and a function whose
+    qualified name has no dot is a module-level function whatever it is wrapped in -/
+theorem decorator_matches_kind (d : Desc) :
+    (kindOf true d).decorator = (match d with
+      | .classmethod => some "@classmethod" | .staticmethod => some "@staticmethod" | .property => some "@property"
+      | .cachedProperty => some "@cached_property" | .plain => none) ∧
+    (kindOf false d).decorator = none := by
+  cases d <;> exact ⟨rfl, rfl⟩
+
+/-- different kinds of method never share a decorator line -/
+theorem decorator_injective (k1 k2 : FKind) (h : k1.decorator = k2.decorator) (hne : k1.decorator ≠ none) : k1 = k2 := by
+  cases k1 <;> cases k2 <;> simp_all [FKind.decorator]
+
+/-- `async` is there exactly for coroutine functions, on the `def` line, after the decorator -/
+theorem head_lines (k : FKind) (isAsync : Bool) (name : String) :
+    headLines k isAsync name =
+      (match k.decorator with | some d => [d] | none => []) ++ [if isAsync then "async def " ++ name else "def " ++ name] := by
+  cases isAsync <;> cases k <;> simp [headLines, FKind.decorator]
+
+/-- who has a receiver: methods, class methods and properties; not static methods, not module-level functions -/
+theorem receiver_kinds (dot : Bool) (d : Desc) :
+    (kindOf dot d).hasSelf = (dot && (match d with | .staticmethod => false | _ => true)) := by
+  cases dot <;> cases d <;> rfl
+
+/-- the definition mirrors the function: the same parameter names in the same order, its kind, its `async` -/
+theorem definition_mirrors_signature (h : Hier) (chain : List RW) (k : Nat) (st : Strategy) (f : FuncSrc) (traces : List CTrace) :
+    (updatedDefinition h chain k st f traces).params.map (·.1) = f.params.map (·.name) ∧
+    (updatedDefinition h chain k st f traces).kind = f.kind ∧ (updatedDefinition h chain k st f traces).isAsync = f.isAsync := by
+  refine ⟨?_, rfl, rfl⟩
+  have key : ∀ (g : SrcParam → Nat → Option Ann) (l : List SrcParam) (n : Nat),
+      ((l.zipIdx n).map (fun pi => (pi.1.name, g pi.1 pi.2))).map (·.1) = l.map (·.name) := by
+    intro g l
+    induction l with
+    | nil => intro n; rfl
+    | cons a l ih => intro n; simp [List.zipIdx_cons, ih]
+  exact key (fun p i => updateArg st (posOf f _ p i)) f.params 0
+
+/-- the receiver of a method is never given a traced type: whatever the traces say about `self` / `cls`, under every strategy
+    and every rewriter -/
+theorem receiver_never_traced (h : Hier) (chain : List RW) (k : Nat) (st : Strategy) (f : FuncSrc) (traces : List CTrace)
+    (hself : f.kind.hasSelf = true) (p : SrcParam) (hp : f.params[0]? = some p) :
+    ∃ a, (updatedDefinition h chain k st f traces).params[0]? = some (p.name, a) ∧ ∀ t, a ≠ some (.ty t) := by
+  refine ⟨updateArg st (posOf f ((shrinkTraced k traces).1.map (fun nt => (nt.1, rewriteChain h chain nt.2))) p 0), ?_, ?_⟩
+  · simp [updatedDefinition, List.getElem?_zipIdx, hp]
+  · exact MT.C13.receiver_untouched st _ (by simp [posOf, hself])
+
+end
 
 /-! non-vacuity: `f`, `K.m`, `K.Inner.n`, `K.m` again -/
 open MT.Build in
